@@ -65,6 +65,10 @@ def scheme(e):
     if t == "handler":
         return "(with-exception-handler (lambda (c) (push! 5 %d) (push! 6 (payload c)) %s) (lambda () %s))" % (e[1], scheme(e[2]), scheme(e[3]))
     if t == "raise":
+        if e[1] == ("const", 999):
+            # an error signalled by the VM itself (vm.c:1171 call_error_handler), not by the raise opcode; its
+            # condition object is canonicalised to 999 by (payload c), which is what the machine raises here
+            return "(car 999)"
         return "(raise %s)" % scheme(e[1])
     if t == "raisec":
         return "(raise-continuable %s)" % scheme(e[1])
@@ -227,6 +231,8 @@ def gen_random(rng, n, fr, wd=0):
     if op == "show":
         return ("show", gen_random(rng, n - 1, fr, wd))
     if op in ("raise", "raisec"):
+        if op == "raise" and rng.random() < 0.3:
+            return ("raise", ("const", 999))          # printed as a primitive error, (car 999)
         return (op, gen_random(rng, min(n - 1, 2), fr, wd))
     if op == "param":
         i = 1 if n <= 3 else rng.choice([1, 1, 2])
@@ -271,6 +277,9 @@ def templates(rng):
         # handler's value must come back to the raise point (through the winds, which are re-entered)
         out.append(("handler", fr.tag(), ("const", 4),
                     ("show", ("guard", 1, fr.tag(), leaf(), w(("add", ("const", 10), ("raisec", ("const", 2))))))))
+        # error signalled by a primitive inside winds, caught by guard outside; and by a handler that escapes
+        out.append(("guard", None, fr.tag(), leaf(), w(("seq", leaf(), w(("raise", ("const", 999)))))))
+        out.append(("callcc", 1, ("handler", fr.tag(), ("throw", 1, 1, ("const", 7)), w(("seq", ("raise", ("const", 999)), leaf())))))
         # stack contents: left operand captured with the continuation, re-entered twice
         out.append(("seq", ("show", ("add", fr.mark(), ("add", ("const", 3), ("callcc", 1, ("const", 1))))), ("throw", 1, 2, ("const", 2))))
     return out
